@@ -36,6 +36,9 @@ def run(ctx):
     lines = ["walkgen %d %d %d %s" % (ctx.rng.randrange(1 << 30), 60 if q else 150, ctx.rng.choice([3, 6, 10]), f) for f in roots]
     rc, scripts, err = run_lines(model, lines, shards=NPROC)
     games = [(f, (s or "").split()) for f, s in zip(roots, scripts)]
+    combos = posgen.filter_valid(model, posgen.combo_positions(ctx.rng, 60 if q else 600))
+    games += posgen.all_moves_games(model, combos, tail=('u',))
+    ctx.notes['combo_template_positions'] = len(combos)
     # (1) the implementation against the algorithmic model, every field after every step
     n1, v1 = diff_games(ctx, "walk", games, "Position after a do/undo step differs from the algorithmic model", impl, model)
     # (2) the property itself on the implementation: every observable after undo == before do
